@@ -71,16 +71,22 @@ def run_case(prog, style: str, rseed: int, bindings, specs=None, use_reference=F
     if specs is None:
         specs = [L.eval_numpy(prog, b) for b in bindings]
     names = [o.name for o in model.graph.output]
-    if names != [f"out{i}" for i in range(len(prog["outputs"]))]:
-        out["fail"] = ("wrong-outputs", f"model outputs {names}")
+    # (the ORDER of inputs / outputs is C03's business; C01 needs the requested names to be there)
+    if sorted(names) != sorted(R.outputs):
+        out["fail"] = ("wrong-outputs", f"model outputs {names}, requested {list(R.outputs)}")
         return out
+    in_names = [i.name for i in model.graph.input]
+    if sorted(in_names) != sorted(R.inputs):
+        out["fail"] = ("wrong-inputs", f"model inputs {in_names}, requested {list(R.inputs)}")
+        return out
+    pos = [int(nm[3:]) for nm in names]  # model output t is requested output pos[t]
     st, sess = L.ort_session(model)
     if st != "ok":
         # primary runtime refuses the model: a failure unless the second runtime runs it correctly
         ok_ref = True
         for b, (want, ws) in zip(bindings, specs):
             s2, got = L.run_reference(model, {f"in{k}": v for k, v in b.items()})
-            if s2 != "ok" or any(L.same_value(g, w) for g, w in zip(got, want)):
+            if s2 != "ok" or any(L.same_value(g, want[oi]) for g, oi in zip(got, pos)):
                 ok_ref = False
         if ok_ref:
             out["notes"].append("runtime-unsupported: " + sess[:120])
@@ -98,13 +104,13 @@ def run_case(prog, style: str, rseed: int, bindings, specs=None, use_reference=F
             # the model and gets the dataflow's values (then the defect is the runtime's, e.g. its
             # mandatory duplicate-Cast removal losing implicit inputs of bodies)
             s3, got2 = L.run_reference(model, feeds)
-            if s3 == "ok" and not any(L.same_value(g, w) for g, w in zip(got2, want)):
+            if s3 == "ok" and not any(L.same_value(g, want[oi]) for g, oi in zip(got2, pos)):
                 out["notes"].append("runtime-unsupported: " + got[:100])
                 continue
             out["fail"] = ("runtime-fails", f"onnxruntime run: {got[:200]}")
             return out
-        for oi, (g, w) in enumerate(zip(got, want)):
-            d = L.same_value(g, w)
+        for g, oi in zip(got, pos):
+            d = L.same_value(g, want[oi])
             if d:
                 out["fail"] = ("wrong-value", f"output out{oi} on binding {bi}: onnxruntime vs dataflow: {d[:200]}")
                 return out
@@ -112,9 +118,9 @@ def run_case(prog, style: str, rseed: int, bindings, specs=None, use_reference=F
         if use_reference:
             s3, got2 = L.run_reference(model, feeds)
             if s3 == "ok":
-                for oi, (g, w) in enumerate(zip(got2, want)):
-                    if L.same_value(g, w):
-                        out["notes"].append(f"onnx.reference differs on out{oi} (secondary runtime only)")
+                for g, oi in zip(got2, pos):
+                    if L.same_value(g, want[oi]):
+                        out["notes"].append("onnx.reference differs (secondary runtime only)")
             else:
                 out["notes"].append("onnx.reference could not run the model: " + got2[:80])
     return out
@@ -273,10 +279,16 @@ def run(ck: core.Check):
             # (so wfCheck judges "creation order is a topological numbering" on the real run)
             margs = L.main_args(prog)
             prog_c, idmap = L.renumber(prog, R.created)
-            lean_reqs.append(L.lean_request(prog_c, L.rename_emission(em, idmap), vals, sd, [idmap[a] for a in margs]))
+            em_c = L.rename_emission(em, idmap)
+            # requested outputs / inputs in the model's order, taken from the PROGRAM (validG compares
+            # them with what the emission returns / binds)
+            want_res = [prog["outputs"][int(o.name[3:])] for o in res["model"].graph.output]
+            want_args = [int(i.name[2:]) for i in res["model"].graph.input]
+            lean_reqs.append(L.lean_request(prog_c, em_c, vals, sd, [idmap[a] for a in want_args],
+                                            [[idmap[r[0]], r[1]] for r in want_res]))
             lean_meta.append((pi, style, rseed, origin, "creation-order"))
             if stats["builds"] % 4 == 0:  # and in the abstract numbering: same values (renaming theorem)
-                lean_reqs.append(L.lean_request(prog, em, vals, sd))
+                lean_reqs.append(L.lean_request(prog, em, vals, sd, want_args, want_res))
                 lean_meta.append((pi, style, rseed, origin, "abstract-order"))
             if pi % 97 == 0 and style == styles[0]:
                 ck.sample({"origin": origin, "style": style, "nodes": len(prog["nodes"]), "depth": d,
